@@ -12,16 +12,21 @@ import (
 //	slot 0: the instance's table-slot state (null | fa | fb | fwrong), set by tset
 //	slot 1: always null
 //	slot 2: fwrong (type (i64)->i64), used for the type-mismatch trap
-//	slot 3: always null (table.init / table.copy out-of-range must not touch it)
+//	slot 3: env.observe, slot 4: WASI proc_exit, slot 5: env.host_exit, slot 6: env.host_panic
+//	        (host functions reached through call_indirect)
+//	slot 7: always null (table.init / table.copy out-of-range must not touch it)
 //
 // Every failing export first performs visible effects (counter+1 and an i64
 // store), then fails, and has "post" effects after the failing instruction that
 // must never become visible (distinct large increments so that a leak is
 // recognisable).
 const (
-	memBytes  = 65536
-	tableSize = 4
-	lastCell  = memBytes - 8
+	memBytes                                               = 65536
+	tableSize                                              = 8
+	slotObserve, slotProcExit, slotHostExit, slotHostPanic = 3, 4, 5, 6
+	markerAddr                                             = 128 // the harness writes an identity marker of the instance here
+	obsAdd                                                 = 7   // env.observe(tag) returns tag+7
+	lastCell                                               = memBytes - 8
 
 	postTrap   = uint64(1) << 32
 	postRec    = uint64(1) << 36
@@ -86,15 +91,25 @@ func buildGuest(o guestOpts) []byte {
 	hop := m.ImportFunc("env", "hop", []byte{i32}, []byte{i32})
 	hostPanic := m.ImportFunc("env", "host_panic", []byte{i32}, nil)
 	hostExit := m.ImportFunc("env", "host_exit", []byte{i32, i32}, nil)
+	observe := m.ImportFunc("env", "observe", []byte{i32}, []byte{i32})
 	procExit := m.ImportFunc("wasi_snapshot_preview1", "proc_exit", []byte{i32}, nil)
 	var peerNest uint32
+	var peerGhp, peerGexit, peerObs [2]uint32 // [direct, indirect] forms of B's exports
 	if o.Peer {
 		peerNest = m.ImportFunc("peer", "nest", []byte{i32}, []byte{i64})
+		for ind, pre := range []string{"", "i"} {
+			peerGhp[ind] = m.ImportFunc("peer", pre+"ghp", []byte{i32, i32, i64}, nil)
+			peerGexit[ind] = m.ImportFunc("peer", pre+"gexit", []byte{i32, i32, i32, i64}, nil)
+			peerObs[ind] = m.ImportFunc("peer", pre+"obs", []byte{i32}, []byte{i32})
+		}
 	}
 	m.Mems = []wenc.Limits{{Min: 1, Max: 1, HasMax: true}}
 	m.Tables = []wenc.TableType{{Elem: wenc.FuncRef, Lim: wenc.Limits{Min: tableSize, Max: tableSize, HasMax: true}}}
 	m.Globals = []wenc.Global{{Type: wenc.GlobalType{Type: i64, Mutable: true}, Init: wenc.ConstI64(0)}}
 	tI32 := m.AddType(nil, []byte{i32})
+	tObs := m.AddType([]byte{i32}, []byte{i32})
+	tV1 := m.AddType([]byte{i32}, nil)
+	tV2 := m.AddType([]byte{i32, i32}, nil)
 	m.Exports = append(m.Exports, wenc.Export{Name: "mem", Kind: wenc.ExtMemory, Idx: 0}, wenc.Export{Name: "g0", Kind: wenc.ExtGlobal, Idx: 0})
 
 	code := func() *wenc.Code { return &wenc.Code{} }
@@ -107,7 +122,7 @@ func buildGuest(o guestOpts) []byte {
 	fb := m.AddFunc(nil, []byte{i32}, nil, code().I32Const(22).End().B)
 	fwrong := m.AddFunc([]byte{i64}, []byte{i64}, nil, code().LocalGet(0).End().B)
 	m.Elems = []wenc.Elem{
-		{Mode: 0, Offset: wenc.ConstI32(2), FuncIdx: []uint32{fwrong}},
+		{Mode: 0, Offset: wenc.ConstI32(2), FuncIdx: []uint32{fwrong, observe, procExit, hostExit, hostPanic}},
 		{Mode: 1, FuncIdx: []uint32{fa, fb}}, // elem 1 passive: table.init source
 		{Mode: 2, FuncIdx: []uint32{fa, fb, fwrong}},
 	}
@@ -237,18 +252,38 @@ func buildGuest(o guestOpts) []byte {
 	c.LocalGet(5).End()
 	m.ExportFunc("rec", m.AddFunc([]byte{i32, i32, i64, i32, i64}, []byte{i64}, []byte{i64}, c.B))
 
-	// ghp(hk, addr, val)
-	c = bump(code(), 1)
-	c.LocalGet(1).LocalGet(2).Mem(0x37, 3, 0).LocalGet(0).Call(hostPanic)
-	bump(c, postGhp).End()
-	m.ExportFunc("ghp", m.AddFunc([]byte{i32, i32, i64}, nil, nil, c.B))
+	// ghp(hk, addr, val) / ighp: the host function is called directly / through call_indirect
+	// gexit(code, how, addr, val) / igexit: how 0 = WASI proc_exit, else env.host_exit(code, how)
+	// obs(tag) -> i32 / iobs: plain observer host function
+	for ind, pre := range []string{"", "i"} {
+		callHost := func(c *wenc.Code, fn uint32, slot int32, typ uint32) {
+			if ind == 0 {
+				c.Call(fn)
+			} else {
+				c.I32Const(slot).CallIndirect(typ, 0)
+			}
+		}
+		c = bump(code(), 1)
+		c.LocalGet(1).LocalGet(2).Mem(0x37, 3, 0).LocalGet(0)
+		callHost(c, hostPanic, slotHostPanic, tV1)
+		bump(c, postGhp).End()
+		m.ExportFunc(pre+"ghp", m.AddFunc([]byte{i32, i32, i64}, nil, nil, c.B))
 
-	// gexit(code, how, addr, val): how 0 = WASI proc_exit, else env.host_exit(code, how)
-	c = bump(code(), 1)
-	c.LocalGet(2).LocalGet(3).Mem(0x37, 3, 0)
-	c.LocalGet(1).Op(0x45).If(0x40).LocalGet(0).Call(procExit).Else().LocalGet(0).LocalGet(1).Call(hostExit).End()
-	bump(c, postGexit).End()
-	m.ExportFunc("gexit", m.AddFunc([]byte{i32, i32, i32, i64}, nil, nil, c.B))
+		c = bump(code(), 1)
+		c.LocalGet(2).LocalGet(3).Mem(0x37, 3, 0)
+		c.LocalGet(1).Op(0x45).If(0x40).LocalGet(0)
+		callHost(c, procExit, slotProcExit, tV1)
+		c.Else().LocalGet(0).LocalGet(1)
+		callHost(c, hostExit, slotHostExit, tV2)
+		c.End()
+		bump(c, postGexit).End()
+		m.ExportFunc(pre+"gexit", m.AddFunc([]byte{i32, i32, i32, i64}, nil, nil, c.B))
+
+		c = bump(code(), 1).LocalGet(0)
+		callHost(c, observe, slotObserve, tObs)
+		c.End()
+		m.ExportFunc(pre+"obs", m.AddFunc([]byte{i32}, []byte{i32}, nil, c.B))
+	}
 
 	// nest(level) -> i64
 	c = bump(code(), 1)
@@ -268,6 +303,32 @@ func buildGuest(o guestOpts) []byte {
 		c.I32Const(32).LocalGet(0).Call(peerNest).Mem(0x37, 3, 0)
 		bump(c, postVia).GlobalGet(0).End()
 		m.ExportFunc("via_peer", m.AddFunc([]byte{i32}, []byte{i64}, nil, c.B))
+		// vp_ghp(ind, hk, addr, val), vp_gexit(ind, code, how, addr, val), vp_obs(ind, tag) -> i32:
+		// A calls B's export through the wasm import; B then calls the host function directly
+		// (ind=0) or through call_indirect (ind=1).
+		pick := func(c *wenc.Code, fns [2]uint32, nargs int, bt byte) {
+			c.LocalGet(0).If(bt)
+			for i := 1; i <= nargs; i++ {
+				c.LocalGet(uint32(i))
+			}
+			c.Call(fns[1]).Else()
+			for i := 1; i <= nargs; i++ {
+				c.LocalGet(uint32(i))
+			}
+			c.Call(fns[0]).End()
+		}
+		c = bump(code(), 1)
+		pick(c, peerGhp, 3, 0x40)
+		bump(c, postVia).End()
+		m.ExportFunc("vp_ghp", m.AddFunc([]byte{i32, i32, i32, i64}, nil, nil, c.B))
+		c = bump(code(), 1)
+		pick(c, peerGexit, 4, 0x40)
+		bump(c, postVia).End()
+		m.ExportFunc("vp_gexit", m.AddFunc([]byte{i32, i32, i32, i32, i64}, nil, nil, c.B))
+		c = bump(code(), 1)
+		pick(c, peerObs, 1, i32)
+		bump(c, postVia).End()
+		m.ExportFunc("vp_obs", m.AddFunc([]byte{i32, i32}, []byte{i32}, nil, c.B))
 	}
 	if o.Start || o.Boot {
 		boot := m.AddFunc(nil, nil, nil, code().I32Const(0).Call(nest).Drop().End().B)
